@@ -11,6 +11,10 @@ GENERATORS = ['consts']
 LEAN_TARGETS = ['EosProofs.Props.C10']
 DRIVERS = ['drv_world']
 TRUSTED = F.WORLD_TRUSTED
+# no exception may escape inside the class of known finding K1 either (values are not judged by this property): targets and
+# boosted ships are removed, replaced and reloaded while targeted / boosted
+for _base in ('projheavy', 'fleetheavy'):
+    F.PARAM_SETS[_base + '+k1'] = dict(F.PARAM_SETS[_base], avoid_k1=False, ship_none=0.45)
 F.PARAM_SETS['surface'] = dict(nsteps=45, nfits=3, nuni=2, malformed=0.25, disjoint=0.3, switch_weight=4)
 RULE = ('generated histories with a 25% malformed stream over all parameter sets (incl. fleets, source switches to '
         'partially disjoint sources and None); after every op a random sample of the remaining public surface is '
@@ -187,7 +191,8 @@ def correspondence(ctx):
 
 
 def oracle(ctx):
-    _surface(ctx, ctx.report, ['surface', 'fleet', 'long', 'projheavy', 'pymods'], ctx.n(40, 1000), 'surface')
+    _surface(ctx, ctx.report, ['surface', 'fleet', 'long', 'projheavy', 'pymods', 'projheavy+k1', 'fleetheavy+k1'],
+             ctx.n(30, 800), 'surface')
 
 
 def search(ctx, broken):
